@@ -148,12 +148,15 @@ func (fr *frame) get(key ssa.Value) value {
 	panic(fmt.Sprintf("get: no value for %T: %v", key, key.Name()))
 }
 
+// noLazyInit: interpreted packages whose initialisers need reflection on runtime types (their uses are stubbed).
+var noLazyInit = map[string]bool{"errors": true, "unicode": true}
+
 func (ex *exec) global(g *ssa.Global) *value {
 	if r, ok := ex.globals[g]; ok {
 		return r
 	}
 	// package-level variables of interpreted foreign packages (strconv's tables, ...) are initialised on first use
-	if g.Pkg != nil && ex.interpPkgs[g.Pkg.Pkg.Path()] && !ex.pkgInited[g.Pkg] && !strings.HasPrefix(g.Name(), "init$") {
+	if g.Pkg != nil && ex.interpPkgs[g.Pkg.Pkg.Path()] && !noLazyInit[g.Pkg.Pkg.Path()] && !ex.pkgInited[g.Pkg] && !strings.HasPrefix(g.Name(), "init$") {
 		if ex.pkgInited == nil {
 			ex.pkgInited = map[*ssa.Package]bool{}
 		}
@@ -615,7 +618,7 @@ func rootFn(fn *ssa.Function) *ssa.Function {
 func (ex *exec) callSSA(caller *frame, callpos token.Pos, fn *ssa.Function, args []value, env []value) value {
 	m := ex.meta(fn)
 	if m.skipInit {
-		if !ex.forceInit || fn.Pkg == nil || !ex.interpPkgs[fn.Pkg.Pkg.Path()] || ex.pkgInitRan[fn] {
+		if !ex.forceInit || fn.Pkg == nil || !ex.interpPkgs[fn.Pkg.Pkg.Path()] || ex.pkgInitRan[fn] || noLazyInit[fn.Pkg.Pkg.Path()] {
 			return nil
 		}
 		// initialisation of an interpreted foreign package, requested by a first use of one of its variables
